@@ -180,6 +180,9 @@ func baseHistories() [][]vlib.Op {
 	}
 	refresh := grow(0)
 	refresh.Note = "refresh"
+	// an extension line makes the refreshed text differ from the stored one, so that
+	// "reported accepted but not stored" is visible whatever second the clock shows
+	refresh.Cp.Ext = []string{"refreshed"}
 	bad := grow(4)
 	bad.Note, bad.Proof = "badproof", vlib.ProofSpec{Kind: "flip", I: 0, J: 3}
 	stale := grow(4)
